@@ -191,7 +191,12 @@ var schemeTricks = []string{
 }
 
 func hostileRelay(rng *rand.Rand) string {
-	switch rng.Intn(8) {
+	switch rng.Intn(9) {
+	case 7:
+		// long runs of one character that is written as several (a page many times the size of the value)
+		ch := []string{"\"", "'", "&", "<", ">", "+", "\x00", "\r", "`", "\"><script>"}[rng.Intn(10)]
+		n := []int{1 << 10, 16 << 10, 40 << 10, 52 << 10, 60 << 10, 64 << 10}[rng.Intn(6)]
+		return strings.Repeat(ch, n/len(ch))
 	case 0:
 		return arbitraryBytes(rng, 200)
 	case 1:
@@ -231,6 +236,22 @@ func c17Judge(r *core.Run, wl string, idx int, class, skel string, d *reply.Deco
 	// which encoding does a user agent read the page in? When a substituted value has bytes beyond ASCII the page has
 	// to say that it is UTF-8 (Content-Type as set by the handler or, if it sets none, as net/http sniffs it; a byte order
 	// mark; a meta element at the top) - otherwise the parser recovers other characters than were put in
+	// which parser does a user agent hand the page to? The statement is about an HTML parser: the media type (as set by
+	// the handler or, if it sets none, as net/http sniffs and sends it) has to be text/html - an XML media type makes
+	// the user agent normalise white space in the values and give up on characters XML does not allow
+	if call != nil && call.Rec != nil {
+		body := call.Rec.Body.Bytes()
+		ct := call.Rec.HeaderAtSend.Get("Content-Type")
+		if ct == "" {
+			ct = http.DetectContentType(body[:min(len(body), 512)])
+		}
+		mt, _, _ := strings.Cut(ct, ";")
+		r.Seen("page_media_types", strings.ToLower(strings.TrimSpace(mt)))
+		if !strings.EqualFold(strings.TrimSpace(mt), "text/html") {
+			viol("page_not_served_as_html", fmt.Sprintf("the auto-submit page is sent with Content-Type %q: a user agent does not read it with its HTML parser", ct))
+			return
+		}
+	}
 	if call != nil && call.Rec != nil && (!isASCII(wantRelay) || !isASCII(wantURL)) {
 		body := call.Rec.Body.Bytes()
 		ct := call.Rec.HeaderAtSend.Get("Content-Type")
